@@ -287,26 +287,20 @@ func svcVisitorPort(taken []int) int {
 
 // the configuration file: the common part and one entry per token
 func (s *svcState) fileBody(tokens []string) []byte {
-	proxies := []json.RawMessage{}
-	visitors := []json.RawMessage{}
+	// every entry spells out only what its token sets (eng_c19_load.go): localIP, bandwidthLimitMode,
+	// a visitor's bindAddr … are filled in by the loader's Complete() at every reload
+	proxies := []map[string]any{}
+	visitors := []map[string]any{}
 	for _, t := range tokens {
 		f := strings.Split(t, ":")
 		if strings.HasPrefix(t, "v") {
 			c := &v1.STCPVisitorConfig{}
 			c.Name, c.Type, c.ServerName, c.SecretKey = f[0], "stcp", "s1", "k"
-			c.BindAddr, c.BindPort = "127.0.0.1", s.vports[atoi(f[1])]
-			b, err := json.Marshal(c)
-			if err != nil {
-				panic(err)
-			}
-			visitors = append(visitors, b)
+			c.BindPort = s.vports[atoi(f[1])]
+			visitors = append(visitors, c19Entry(c))
 			continue
 		}
-		b, err := json.Marshal(buildProxy("p"+f[0], atoi(f[1])))
-		if err != nil {
-			panic(err)
-		}
-		proxies = append(proxies, b)
+		proxies = append(proxies, c19Entry(buildProxyRaw("p"+f[0], atoi(f[1]))))
 	}
 	doc := map[string]any{
 		"serverAddr":    "127.0.0.1",
